@@ -4,6 +4,15 @@ import SaModel.Read.Access
 namespace Driver.Suites.Access
 open Lean Driver SaModel SaModel.Access
 
+/-- a request of the harness: one model operation, or a PROVIDED `Iterator` method, which std defines through `next`
+(`nth(n)` = `n + 1` calls of `next`, the last one's result; `by_ref().count()` = calls of `next` until `None`, the
+number of items) and which is therefore replayed on the model as that many `iterNext` steps — the iterator is fused, so
+calls after the end change nothing -/
+inductive Req where
+  | one (op : Op)
+  | nth (k n : Nat)
+  | count (k : Nat)
+
 def parseOp (j : Json) : Except String Op := do
   let k ← getStr j "op"
   match k with
@@ -15,6 +24,39 @@ def parseOp (j : Json) : Except String Op := do
   | "iter_hint" => pure (.iterHint (← getNat j "k"))
   | "bulk" => pure .bulk
   | _ => throw s!"unknown op {k}"
+
+def parseReq (j : Json) : Except String Req := do
+  match (← getStr j "op") with
+  | "iter_nth" => pure (.nth (← getNat j "k") (← getNat j "n"))
+  | "iter_count" => pure (.count (← getNat j "k"))
+  | _ => pure (.one (← parseOp j))
+
+def Req.name : Req → String
+  | .one op => match op with
+    | .len => "len" | .isEmpty => "is_empty" | .get _ => "get" | .iterNew => "iter_new"
+    | .iterNext _ => "iter_next" | .iterHint _ => "iter_hint" | .bulk => "bulk"
+  | .nth _ _ => "iter_nth"
+  | .count _ => "iter_count"
+
+/-- the model operations a request stands for (`len` bounds the `count` replay: `len + 1` calls reach the end) -/
+def Req.expand (len : Nat) : Req → List Op
+  | .one op => [op]
+  | .nth k n => List.replicate (n + 1) (.iterNext k)
+  | .count k => List.replicate (len + 1) (.iterNext k)
+
+/-- fold the outputs of the expansion back into the one output the request has -/
+def Req.collapse : Req → List Out → Out
+  | .one _, outs => outs.headD .unit
+  | .nth _ _, outs => outs.getLastD .unit
+  | .count _, outs =>
+    if outs.any (fun o => match o with | .noSuchIter => true | _ => false) then .noSuchIter
+    else .n (outs.filter (fun o => match o with | .item (some _) => true | _ => false)).length
+
+def collapseAll (len : Nat) : List Req → List Out → List Out
+  | [], _ => []
+  | r :: rs, outs =>
+    let k := (r.expand len).length
+    r.collapse (outs.take k) :: collapseAll len rs (outs.drop k)
 
 def opName : Op → String
   | .len => "len" | .isEmpty => "is_empty" | .get _ => "get" | .iterNew => "iter_new"
@@ -31,8 +73,8 @@ def outJson (rows : Array Json) : Out → Json
   | .unit => Json.mkObj [("unit", true)]
   | .noSuchIter => Json.mkObj [("no_such_iter", true)]
 
-def firstDiff (ops : List Op) (a b : List Json) : Option (Nat × Op) :=
-  let rec go : Nat → List Op → List Json → List Json → Option (Nat × Op)
+def firstDiff (ops : List Req) (a b : List Json) : Option (Nat × Req) :=
+  let rec go : Nat → List Req → List Json → List Json → Option (Nat × Req)
     | _, [], _, _ => none
     | i, op :: ops, x :: xs, y :: ys => if x == y then go (i + 1) ops xs ys else some (i, op)
     | i, op :: _, _, _ => some (i, op)
@@ -56,11 +98,12 @@ def handle (j : Json) : Except String Verdict := do
   | .error _ => return { agree := true, spec := [("C13", if specCtor then "pass" else "fail"), ("C16", "pass")], tags := ["ctor-err"] }
   | .ok len =>
     let implLen ← getNat ctor "ok"
-    let ops ← (← getArr j "ops").toList.mapM parseOp
+    let ops ← (← getArr j "ops").toList.mapM parseReq
     let impl := (← getArr j "impl").toList
-    let modelOuts := (Access.run { len, iters := [] } ops).map (outJson rows)
-    let specOuts := (Access.specRun len [] ops).map (outJson rows)
-    let tags := (ops.map opName).eraseDups
+    let flat := ops.flatMap (Req.expand len)
+    let modelOuts := (collapseAll len ops (Access.run { len, iters := [] } flat)).map (outJson rows)
+    let specOuts := (collapseAll len ops (Access.specRun len [] flat)).map (outJson rows)
+    let tags := (ops.map Req.name).eraseDups
     if implLen != len || rows.size != len then
       return { agree := false, spec := [("C13", "fail")], sig := "C13/len", why := s!"len: model {len}, impl {implLen}, rows {rows.size}" }
     let dModel := firstDiff ops modelOuts impl
@@ -71,7 +114,7 @@ def handle (j : Json) : Except String Verdict := do
                        sig := if impl.length == ops.length then "" else "C13/op-count" }
     | some (i, op) =>
       return { agree := false, spec := [("C13", specV), ("C16", "pass")], tags := tags,
-               sig := s!"C13/{opName op}",
-               why := s!"op #{i} {opName op}: model {modelOuts.getD i Json.null}, impl {impl.getD i Json.null}" }
+               sig := s!"C13/{op.name}",
+               why := s!"op #{i} {op.name}: model {modelOuts.getD i Json.null}, impl {impl.getD i Json.null}" }
 
 end Driver.Suites.Access
